@@ -5,15 +5,19 @@ pub mod c02;
 pub mod c03;
 pub mod c04;
 pub mod c05;
+pub mod c06;
 pub mod c07;
 pub mod c08;
+pub mod c11;
 pub mod c14;
-pub mod c17;
 pub mod c16;
+pub mod c17;
+pub mod c18;
 pub mod c19;
+pub mod c20;
 pub mod tzchild;
 
-pub const ALL: &[&str] = &["C01", "C02", "C03", "C04", "C05", "C07", "C16", "C08"];
+pub const ALL: &[&str] = &["C01", "C02", "C03", "C04", "C05", "C06", "C07", "C08", "C11", "C14", "C16", "C17", "C18", "C19", "C20"];
 
 pub fn run(ctx: &Ctx) -> Option<Outcome> {
     match ctx.prop.as_str() {
@@ -22,12 +26,16 @@ pub fn run(ctx: &Ctx) -> Option<Outcome> {
         "C03" => Some(c03::run(ctx)),
         "C04" => Some(c04::run(ctx)),
         "C05" => Some(c05::run(ctx)),
+        "C06" => Some(c06::run(ctx)),
         "C07" => Some(c07::run(ctx)),
+        "C08" => Some(c08::run(ctx)),
+        "C11" => Some(c11::run(ctx)),
+        "C14" => Some(c14::run(ctx)),
         "C16" => Some(c16::run(ctx)),
         "C17" => Some(c17::run(ctx)),
+        "C18" => Some(c18::run(ctx)),
         "C19" => Some(c19::run(ctx)),
-        "C14" => Some(c14::run(ctx)),
-        "C08" => Some(c08::run(ctx)),
+        "C20" => Some(c20::run(ctx)),
         _ => None,
     }
 }
@@ -37,6 +45,8 @@ pub fn child(mode: &str, args: &[String]) -> i32 {
     match mode {
         "tzq" => tzchild::child_main(args),
         "c16x" => c16::child_extremes(args),
+        "c18h" => c18::child_history(args),
+        "c18s" => c18::child_stress(args),
         _ => {
             eprintln!("unknown child mode");
             3
